@@ -190,7 +190,7 @@ type ScriptedBody struct {
 	EOFWithData bool
 	// FinalErr is returned once the data is exhausted (nil = io.EOF).
 	FinalErr error
-	// OnEOF is called (once) when the terminal error is first returned, e.g. to
+	// OnEOF is called (once) when a clean io.EOF is first returned, e.g. to
 	// populate response trailers the way net/http does.
 	OnEOF func()
 
@@ -205,14 +205,14 @@ type ScriptedBody struct {
 }
 
 func (b *ScriptedBody) finalErr() error {
+	if b.FinalErr != nil {
+		return b.FinalErr
+	}
 	if !b.eofDone {
 		b.eofDone = true
 		if b.OnEOF != nil {
 			b.OnEOF()
 		}
-	}
-	if b.FinalErr != nil {
-		return b.FinalErr
 	}
 	return io.EOF
 }
@@ -488,4 +488,77 @@ func (r *Recorder) Finish() *Result {
 		}
 	}
 	return res
+}
+
+// ---------------------------------------------------------------------------
+// Loopback: an HTTPClient that serves the request in memory.
+
+// LoopExchange is one request/response pair that went through a Loopback.
+type LoopExchange struct {
+	ReqHeader http.Header
+	ReqBody   []byte
+	URL       string
+	Path      string
+	Result    *Result
+}
+
+// Loopback is an HTTPClient that reads the whole request body, runs the
+// handler on it in memory (as an HTTP/2 request) and returns the recorded
+// response. Every exchange is kept.
+type Loopback struct {
+	Handler http.Handler
+	mu      sync.Mutex
+	Log     []*LoopExchange
+}
+
+// Do implements connect.HTTPClient.
+func (l *Loopback) Do(req *http.Request) (*http.Response, error) {
+	var body []byte
+	if req.Body != nil {
+		b, err := io.ReadAll(req.Body)
+		_ = req.Body.Close()
+		if err != nil {
+			return nil, err
+		}
+		body = b
+	}
+	ex := &LoopExchange{ReqHeader: req.Header.Clone(), ReqBody: body, URL: req.URL.String(), Path: req.URL.Path}
+	rec := NewRecorder()
+	sreq := ServerRequest(req.Context(), req.Method, req.URL.Path, req.Header, &ScriptedBody{Data: body}, 2)
+	l.Handler.ServeHTTP(rec, sreq)
+	ex.Result = rec.Finish()
+	l.mu.Lock()
+	l.Log = append(l.Log, ex)
+	l.mu.Unlock()
+	return ResponseFromResult(req, ex.Result, nil), nil
+}
+
+// Last returns the most recent exchange.
+func (l *Loopback) Last() *LoopExchange {
+	l.mu.Lock()
+	defer l.mu.Unlock()
+	if len(l.Log) == 0 {
+		return nil
+	}
+	return l.Log[len(l.Log)-1]
+}
+
+// ServerRequest builds a server-side *http.Request.
+func ServerRequest(ctx interface {
+	Done() <-chan struct{}
+}, method, path string, header http.Header, body io.ReadCloser, protoMajor int) *http.Request {
+	return serverRequest(ctx, method, path, header, body, protoMajor)
+}
+
+// ResponseFromResult turns a recorded result into a client-side response.
+// body overrides the scripted body when non-nil (it must carry the data).
+func ResponseFromResult(req *http.Request, res *Result, body *ScriptedBody) *http.Response {
+	if body == nil {
+		body = &ScriptedBody{Data: res.Body}
+	}
+	var trailer http.Header
+	if len(res.Trailer) > 0 {
+		trailer = res.Trailer
+	}
+	return NewResponse(req, res.Status, res.Header, body, trailer)
 }
